@@ -160,6 +160,9 @@ func (w *World) buildHandlers(idx int, cfg *HandlerCfg) [4]http.Handler {
 	if cfg.ReadMax > 0 {
 		opts = append(opts, connect.WithReadMaxBytes(cfg.ReadMax))
 	}
+	if cfg.FailCodec {
+		opts = append(opts, connect.WithCodec(&simCodec{name: "proto", inner: pbCodec{}}), connect.WithCodec(&simCodec{name: "json", inner: pbCodec{json: true}}))
+	}
 	var ics []connect.HandlerOption
 	for i := 0; i < cfg.NIntercept; i++ {
 		ics = append(ics, connect.WithInterceptors(&tagInterceptor{w: w, tag: fmt.Sprintf("i%d", i)}))
@@ -292,6 +295,13 @@ func (w *World) enter(ctx context.Context, hdr http.Header, spec connect.Spec) *
 func recvFailure(o *CallObs) error {
 	if o.Plan.HErr == nil && o.H.RecvEndSet && o.H.RecvEnd != nil && !errors.Is(o.H.RecvEnd, io.EOF) {
 		return o.H.RecvEnd
+	}
+	if o.Plan.ReturnSendErr {
+		for _, e := range o.H.SendErrs {
+			if e != nil {
+				return e
+			}
+		}
 	}
 	return nil
 }
@@ -426,6 +436,8 @@ func (w *World) runProg(ctx context.Context, o *CallObs, st hstream) {
 				h.SendErrs = append(h.SendErrs, err)
 				if err == nil {
 					h.Sent++
+				} else if p.ReturnSendErr {
+					return
 				}
 			}
 		case "sethdr":
@@ -533,6 +545,9 @@ func (w *World) serveServerStream(ctx context.Context, req *connect.Request[Msg]
 		hdr:  stream.ResponseHeader,
 		trl:  stream.ResponseTrailer,
 	})
+	if err = recvFailure(o); err != nil {
+		return err
+	}
 	err = o.Plan.HErr.build(ctx)
 	return err
 }
